@@ -1,5 +1,5 @@
 #!/venv/bin/python
-"""Developer tool: add properties to a rule's attribution.  usage: attr.py RULE-ID C02 C13 ..."""
+"""Developer tool: add properties to a rule's attribution.  usage: attribute_rule.py RULE-ID C02 C13 ..."""
 import glob, os, re, sys
 rid, add = sys.argv[1], sys.argv[2:]
 root = os.path.join(os.path.dirname(os.path.dirname(os.path.abspath(__file__))), 'lt_static', 'rules')
